@@ -297,7 +297,8 @@ Definition missing (r : rst) (first last : Z) : list Z :=
   else filter (fun s => negb (mem s (r_known r))) (zseq (Z.max first (r_base r)) last).
 
 (* handle_heartbeat_msg (final flag not set: always answers).  Datagrams: NACKFRAGs (one
-   datagram with all of them) first, then the ACKNACK. *)
+   datagram with all of them) first, then the ACKNACK; counts are drawn in that order (repo fix
+   b73e74c: the ACKNACK takes its count after the NACKFRAGs that are sent before it). *)
 Definition r_hb (first last count : Z) (r : rst) : rst * list dgram :=
   if count <=? r_hbc r then (r, [])
   else
@@ -316,9 +317,9 @@ Definition r_hb (first last count : Z) (r : rst) : rst * list dgram :=
                      | [] => []
                      end
                  | None => []
-                 end) (combine partial (zrange (c + 1) (length partial))) in
+                 end) (combine partial (zrange c (length partial))) in
     (mkR (r_base r1) (r_known r1) (r_hbc r1) (c + 1 + Z.of_nat (length partial)) (r_asm r1) (r_got r1),
-     (if isnil nfs then [] else [nfs]) ++ [[SAck abase bits c]]).
+     (if isnil nfs then [] else [nfs]) ++ [[SAck abase bits (c + Z.of_nat (length partial))]]).
 
 (* ------------------------------------------------------------------------------------------ *)
 (* the product system                                                                           *)
